@@ -56,6 +56,15 @@ def gen(seed, tier):
             payloads.append({"id": "xq%d" % j, "flavour": rng.choice([ofl, ofl, "threading"]), "via": "execute", "steps": [["sleep", rng.choice([0.05, 0.2, 0.5])], ["return", "none"]], "cleanup_sync": 1})
             steps += [["execute", "xq%d" % j], ["sleep", rng.choice([0.0, 0.05])]]
         payloads.append({"id": "execer", "flavour": cfl, "via": "queued", "steps": steps + [["block"]], "cleanup_sync": 1})
+    if rng.random() < 0.12:
+        # a coroutine payload whose clean-up calls execute() once more (flush something through a thread
+        # payload, say) - possibly after the runners have gone: it is refused then, it does not block
+        cfl = rng.choice(["trio", "trio", "asyncio"])
+        payloads.append({"id": "cx", "flavour": "threading", "via": "execute", "steps": [["return", "none"]]})
+        spec = {"id": "cexec", "flavour": cfl, "via": "queued", "steps": [["block"]], "cleanup_sync": 1, "cleanup_execute": "cx"}
+        if cfl == "trio":
+            spec["cleanup_async"] = rng.choice([0.1, 0.5])
+        payloads.append(spec)
     if rng.random() < 0.1:
         # a worker that re-adopts itself whenever it goes down: during a termination the successor is
         # discarded (or cancelled in turn) - the run call still ends
